@@ -239,7 +239,9 @@ func check(text string, exp []expNode) []engine.Violation {
 	return nil
 }
 
-var trivia = []string{"", " ", "\t", "\n", "\r\n", " /*c*/ ", " //c\n", "\n\n  "}
+var trivia = []string{"", " ", "\t", "\n", "\r\n", " /*c*/ ", " //c\n", "\n\n  ",
+	// comment bodies made of the comment delimiters themselves
+	" /**/ ", " /*/ x */ ", " /***/ ", " /* / * // */ ", " //\n", " // /* c\n", " /*\n*/ ", " /* \"q; { */ ", " //*/ c\n", " /*a*//*b*/ "}
 
 func module(body []*st) *st {
 	kids := []*st{{kw: "namespace", arg: "urn:m"}, {kw: "prefix", arg: "m"}}
